@@ -791,7 +791,13 @@ def pipeline(ctx, drv, rng):
                           dict(desc, out=hexl(out), impl=hexl(back), model=hexl(mb)), key="corr:pipeline-remove", no_input=True)
         # round trip: |back - raw| <= N'(f) * err(f) + err(N) ;  err(f) ~ eps * Sout
         m = np.isfinite(out.ravel())
-        lc = lam_class(lam)
+        with Quiet():
+            nlo = float(nz.normalize_range[0])
+            if np.isfinite(nlo):
+                # a denormalized value within a few ulp(|trend| + |out|) of the open range's end point is absorbed by the
+                # trend in doubles (out - trend lands on/below the end point): no information left to invert
+                dv = np.asarray(nz.denormalize(means.ravel() + raw.ravel()), dtype=float)
+                m &= ~(np.abs(dv - nlo) <= ULPS * EPS * Sout)
         with np.errstate(all="ignore"):
             SN = scale_of(name, "normalize", lam, sh, (out.ravel() - trends.ravel())[m], (raw.ravel() + means.ravel())[m])
             tol = 4 * ULPS * EPS * (np.abs(dz.ravel()[m]) * Sout[m] + SN + np.abs(means.ravel()[m]) + np.abs(raw.ravel()[m]))
